@@ -1,7 +1,24 @@
-"""C13 -- E1 half only for now (props/C13_e1.py); the E2 obligations are merged in here later."""
-from props.C13_e1 import *
-from props import C13_e1 as _e1
+"""C13 — Thrift metadata round-trips and is genuine compact protocol.
+E1 half (props/C13_e1.py, CBMC): leaf codec (varint/zigzag/field and list headers/binary) against the independent reference codec.
+E2 half (props/C13_e2.py, symx): FileMetaData / PageHeader write -> parse field by field, write -> independent decoder, independent encoder
+(incl. unknown fields of every wire type, long-form headers) -> carquet parser."""
+from props import C13_e1 as _e1, C13_e2 as _e2
+FILES = sorted(set(_e1.FILES) | set(_e2.FILES))
+BUDGET = {'quick': 840, 'thorough': 3600}
 
 
 def obligations(tier):
-    return _e1.obligations(tier)
+    return _e1.obligations(tier) + _e2.obligations(tier)
+
+
+def evidence_extra(tier):
+    out = {}
+    for m in (_e1, _e2):
+        for k, v in (getattr(m, 'evidence_extra', lambda t: {})(tier) or {}).items():
+            if isinstance(v, list) and isinstance(out.get(k), list):
+                out[k] = out[k] + v
+            elif isinstance(v, dict) and isinstance(out.get(k), dict):
+                out[k].update(v)
+            else:
+                out.setdefault(k, v)
+    return out
